@@ -256,7 +256,7 @@ def build(sc, seed):
             if fi:
                 w[-1] = 0.3
         elif warm == "intercept_only":
-            w[-1] = 1.5
+            w[-1] = 3.0 if rng.random() < 0.5 else -3.0          # a few units off, either side
         w_init = w
         Xw_init = PB.predictor(prob, w)
         if s == "GramCD":
